@@ -293,7 +293,7 @@ async fn run(case: Value, root: &Path) -> Value {
 	}
 	let config = Arc::new(Config::default());
 	sh.lock().unwrap().config = Some(config.clone());
-	let (er_s, mut er_r) = tokio::sync::mpsc::channel(64);
+	let (er_s, mut er_r) = tokio::sync::mpsc::channel(case["errors_cap"].as_u64().unwrap_or(64) as usize);
 	let (ev_s, _ev_r) = async_priority_channel::bounded(1024);
 	let errs = Arc::new(Mutex::new(Vec::<String>::new()));
 	let e2 = errs.clone();
